@@ -41,6 +41,7 @@ static struct {
 } X;
 
 static const char *never_done_clause(void);
+static void c14_file_run(void);
 static char known_clause[64], known_msg[400];
 // deviations recorded as known findings (F13, F14, F16): remember the first, keep judging the rest of the run
 static void known_dev(const char *clause, const char *fmt, ...) {
@@ -272,6 +273,7 @@ static void c14_run(void) {
 	memset(&X, 0, sizeof X);
 	h_stepcap_clause = stepcap_clause;
 	bool big = RC.cfg & CFG_THOROUGH;
+	if (g_chance(1, 6)) { c14_file_run(); return; }
 	X.kind = (int)g_n(CH_N - 1);   // file channels: see c14_file below
 	X.is_stream = 1; X.is_read = (X.kind == CH_PIPE_READ || X.kind == CH_SOCK_READ);
 	X.hq_serial = g_chance(2, 3);
@@ -357,6 +359,95 @@ static void c14_run(void) {
 	RES.counters[0] = X.nops; RES.counters[1] = (int64_t)tot; RES.counters[2] = sim_io_ncalls; RES.counters[3] = X.stop;
 	RES.nontrivial = sim_io_ncalls >= 2 && sim_st.switches > 10;
 }
+/* ---- random-access channel on a regular file (memfd): reads and writes at offsets, regions of one epoch are
+ * disjoint, epochs are separated by barriers; the file is compared with a model at every barrier and at the end ---- */
+static void file_compare(const char *when) {
+	unsigned char *buf = malloc(X.file_size);
+	ssize_t r = pread(X.peer_fd, buf, X.file_size, 0);   // through an unwatched duplicate: no injected faults for the harness
+	if (r != (ssize_t)X.file_size) h_viol("harness", "pread of the backing file failed");
+	for (size_t k = 0; k < X.file_size; k++) if (buf[k] != X.file_model[k]) h_viol("file-contents", "%s: byte %zu of the file is 0x%02x, the model has 0x%02x", when, k, buf[k], X.file_model[k]);
+	free(buf);
+}
+static void c14_file_run(void) {
+	bool big = RC.cfg & CFG_THOROUGH;
+	X.kind = CH_FILE; X.is_stream = 0; X.hq_serial = g_chance(1, 2);
+	X.file_size = (size_t)g_range(2000, big ? 40000 : 12000);
+	X.file_model = malloc(X.file_size);
+	for (size_t k = 0; k < X.file_size; k++) X.file_model[k] = pat(k);
+	X.by_path = g_chance(1, 2);
+	X.nops = g_range(2, MAXIOOPS);
+	// epochs of disjoint regions: region i of an epoch is slice i of the file
+	int idx = 0, slice = 0; size_t nsl = 6, sl = X.file_size / nsl;
+	for (int i = 0; i < X.nops; i++) {
+		ioop *op = &X.ops[i]; memset(op, 0, sizeof *op); op->idx = idx++; op->got = malloc(MAXBYTES);
+		uint32_t r = g_n(100);
+		if (slice >= (int)nsl || r < 15) { op->kind = IO_BARRIER; slice = 0; continue; }
+		if (r < 25) { op->kind = IO_SET_WATER; op->high = (size_t)g_range(64, 3000); continue; }
+		op->kind = r < 62 ? IO_READ : IO_WRITE;
+		size_t off = (size_t)slice * sl + g_n((uint32_t)(sl / 2)), len = 1 + g_n((uint32_t)(sl - (off - (size_t)slice * sl) - 1));
+		op->off = (off_t)off; op->len = len; slice++;
+	}
+	h_sample("%s (%zu bytes, opened by %s); handlers on a %s queue\n", chn[X.kind], X.file_size, X.by_path ? "path" : "descriptor", X.hq_serial ? "serial" : "global");
+	for (int i = 0; i < X.nops; i++) if (op_on(X.ops[i].idx)) { ioop *op = &X.ops[i]; h_sample(" #%d %s", op->idx, ion[op->kind]); if (op->kind == IO_READ || op->kind == IO_WRITE) h_sample("(off %ld, len %zu)", (long)op->off, op->len); h_sample("\n"); }
+	h_announce();
+	X.fd = memfd_create("c14", 0);
+	if (X.fd < 0 || write(X.fd, X.file_model, X.file_size) != (ssize_t)X.file_size) h_viol("harness", "memfd");
+	lseek(X.fd, 0, SEEK_SET);   // offsets of a random-access channel are relative to the descriptor's position at creation
+	X.peer_fd = dup(X.fd);
+	sim_io_watch(X.fd, 0);
+	X.hq = X.hq_serial ? dispatch_queue_create("io-handlers", NULL) : dispatch_get_global_queue(0, 0);
+	void (^cleanup)(int) = ^(int error) { X.cleanup_count++; X.cleanup_err = error; X.cleanup_stamp = h_stamp(); h_log("cleanup handler error=%d", error); h_progress(); };
+	int chfd = X.fd;
+	if (X.by_path) {
+		char path[64]; snprintf(path, sizeof path, "/proc/self/fd/%d", X.fd);
+		X.ch = dispatch_io_create_with_path(DISPATCH_IO_RANDOM, path, O_RDWR, 0, X.hq, cleanup);
+	} else X.ch = dispatch_io_create(DISPATCH_IO_RANDOM, chfd, X.hq, cleanup);
+	if (!X.ch) h_viol("create", "dispatch_io_create failed");
+	// client: submit; reads expect the model as of their epoch, writes update it when they complete without error
+	for (int i = 0; i < X.nops; i++) {
+		ioop *op = &X.ops[i]; if (!op_on(op->idx)) continue;
+		if (op->kind == IO_BARRIER) {
+			op->submit = h_stamp(); op->submitted = 1;
+			dispatch_io_barrier(X.ch, ^{ op->barrier_start = h_stamp(); sim_point(); op->done_count = 1; op->barrier_end = h_stamp(); h_progress(); });
+			// epochs are made sequential by waiting for the barrier: the model is only updated between epochs
+			uint64_t t0 = sim_now(); while (!op->done_count && sim_now() - t0 < LIVENESS_NS) sim_sleep_ns(200 * USEC);
+			if (!op->done_count) h_stuck("never-done", "a barrier on the file channel did not run");
+			// the barrier orders I/O, not handler deliveries: every earlier write must have reached the file by now
+			for (int j = 0; j < i; j++) { ioop *w = &X.ops[j]; if (w->kind == IO_WRITE && w->submitted && !w->after_done) { w->after_done = 1;
+				for (size_t k = 0; k < w->len; k++) X.file_model[(size_t)w->off + k] = pat((size_t)w->off + k + 1000 * (size_t)w->idx); } }
+			if (sim_st.iofault[IOF_EIO] + sim_st.iofault[IOF_ENOSPC] > 0) continue;
+			file_compare("at a barrier (an earlier write had not reached the file, or a later one already had)");
+			continue;
+		}
+		submit_op(op);
+		sim_point();
+	}
+	X.client_done = 1;
+	if (h_wait_until(io_done, NULL, LIVENESS_NS)) h_stuck("never-done", "a file operation never saw done");
+	dispatch_io_close(X.ch, 0); X.closed_call = 1;
+	dispatch_release(X.ch);
+	if (h_wait_until(io_cleaned, NULL, LIVENESS_NS)) h_stuck("no-cleanup", "the channel's cleanup handler did not run after close and release");
+	h_settle(10 * MSEC);
+	int hard = sim_st.iofault[IOF_EIO] + sim_st.iofault[IOF_ENOSPC] > 0;
+	for (int i = 0; i < X.nops; i++) {
+		ioop *op = &X.ops[i]; if (!op->submitted) continue;
+		if (op->kind == IO_WRITE && op->ngot && !op->err) h_viol("unwritten-without-error", "file io_write #%d reported %zu unwritten bytes without an error", op->idx, op->ngot);
+		if (op->kind == IO_WRITE && !op->after_done) { size_t written = op->len - op->ngot; for (size_t k = 0; k < written; k++) X.file_model[(size_t)op->off + k] = pat((size_t)op->off + k + 1000 * (size_t)op->idx);
+			if (op->ngot && !op->err) h_viol("unwritten-without-error", "file io_write #%d reported %zu unwritten bytes without an error", op->idx, op->ngot); }
+		if (op->kind == IO_READ) {
+			if (op->ngot > op->len) h_viol("too-much-data", "file io_read #%d delivered %zu of %zu bytes", op->idx, op->ngot, op->len);
+			if (!op->err && !hard && op->ngot != op->len) h_viol("short-read", "file io_read #%d (off %ld len %zu) completed without error with %zu bytes", op->idx, (long)op->off, op->len, op->ngot);
+			for (size_t k = 0; k < op->ngot; k++) if (op->got[k] != pat((size_t)op->off + k) && op->got[k] != X.file_model[(size_t)op->off + k])
+				h_viol("wrong-bytes", "file io_read #%d: byte %zu (file offset %zu) is 0x%02x", op->idx, k, (size_t)op->off + k, op->got[k]);
+		}
+		if ((op->kind == IO_READ || op->kind == IO_WRITE) && op->done_count != 1) h_viol("done-count", "%s #%d saw done %d times", ion[op->kind], op->idx, op->done_count);
+	}
+	if (X.cleanup_count != 1) h_viol("cleanup-count", "the cleanup handler ran %d times", X.cleanup_count);
+	if (!hard) file_compare("at the end");
+	RES.counters[0] = X.nops; RES.counters[2] = sim_io_ncalls; RES.counters[4] = 1;
+	RES.nontrivial = sim_io_ncalls >= 2 && sim_st.switches > 10;
+}
+
 static void c14_tune(sim_knobs *k, unsigned cfg, uint64_t *g) {
 	k->thrfail_den = 0; if (!k->tick_ns) k->tick_ns = 20;
 	k->alloc_den = 0; k->step_cap = 6000000;
@@ -366,6 +457,6 @@ static void c14_tune(sim_knobs *k, unsigned cfg, uint64_t *g) {
 		k->iofault_mask = (1u << IOF_SHORT) | (1u << IOF_EINTR) | (1u << IOF_EAGAIN);
 	}
 }
-static const char *const c14_names[] = { "operations", "bytes_delivered_or_unwritten", "intercepted_io_calls", "runs_with_stop", NULL };
+static const char *const c14_names[] = { "operations", "bytes_delivered_or_unwritten", "intercepted_io_calls", "runs_with_stop", "file_channel_runs", NULL };
 const prop_def prop_C14 = { "C14", c14_tune, c14_run, c14_names,
 	"non-trivial: the library made at least two read/write system calls on the descriptor under test and more than 10 context switches happened; distinct = distinct schedule signatures among those" };
